@@ -260,6 +260,11 @@ def call_method(I, obj, meth, pos, kw, node):
 
 def str_method(I, s: SStr, meth, pos, kw, node):
     F = I.w.funcs
+    hook0 = getattr(I, "str_method_hook", None)
+    if hook0:
+        r = hook0(s, meth, pos, kw, node)
+        if r is not None:
+            return r
     if meth == "replace":
         a, b = pos[0], pos[1]
         if not (isinstance(a, SStr) and isinstance(b, SStr)):
@@ -526,4 +531,27 @@ def construct(I, cls, pos, kw, node):
         c = I.contracts.get(q)
         if getattr(c, "ctor_model", None):
             return c.ctor_model(I, pos, kw, node)
+        if "self" in c.post:
+            # C(args): a new object whose state is the post-state of __init__ (contract), raising as __init__ does
+            bound = bind_params(I, c.body_name(I.src), [SNone()] + list(pos), kw, node)
+            bound.pop("self", None)
+            c2params = [(p, s) for p, s in c.params if p != "self"]
+            env = {}
+            for p, s in c2params:
+                v = I.coerce_param(bound[p], s, node)
+                env[p] = I.to_val(v)
+            empty = {"AttrList": "ANil", "NodeList": "NNil"}.get(c.sort_of("self"))
+            if empty:
+                env["self"] = Val(c.sort_of("self"), I.w.ctor_fn(I.ctor(empty)))      # the object under construction starts empty
+            line = getattr(node, "lineno", "?")
+            for i, r in enumerate(c.requires):
+                I.oblige(f"R:{I.short()}:L{line}:pre[{cls}.__init__#{i}]", spec_bool(I, r, env, c.name), where=I.src.line(I.module, node), note=f"precondition `{r}` of {cls}(...)")
+            for exc, cond in c.raises:
+                if I.branch(spec_bool(I, cond, env, c.name)):
+                    raise _Raise(SExc(exc, []), line)
+            out = I.from_val(spec_term(I, c.post["self"], env, c.name, want=c.sort_of("self")))
+            if isinstance(out, SAdt):
+                out.fresh = True
+                out.pyclass = c.self_class if c.sort_of("self") not in ("Node",) else None
+            return out
     raise Unsupported(f"constructor {cls}(...)")
